@@ -541,11 +541,11 @@ pixman_composite_trapezoids (pixman_op_t		op,
 	    pixman_rasterize_trapezoid (tmp, trap, - box.x1, - box.y1);
 	}
 	
-	pixman_image_composite (op, src, tmp, dst,
-				x_src + box.x1, y_src + box.y1,
-				0, 0,
-				x_dst + box.x1, y_dst + box.y1,
-				box.x2 - box.x1, box.y2 - box.y1);
+	pixman_image_composite32 (op, src, tmp, dst,
+				  x_src + box.x1, y_src + box.y1,
+				  0, 0,
+				  x_dst + box.x1, y_dst + box.y1,
+				  box.x2 - box.x1, box.y2 - box.y1);
 	
 	pixman_image_unref (tmp);
     }
